@@ -13,7 +13,7 @@ items to the driver, and runs two checks on the REAL code:
     (a reference lexer, written independently of the tokenizer) and EVERY token clause assumed on VParser is checked.
  2. gen_stream: for n = 0..=60 extra columns, `bed_autosql(rest)` (rest = n tab-separated columns; "" for n = 0) is
     lexed by the reference lexer and the predicate gen_stream(T, n) of unit.rs.tpl is evaluated (positions gen_start(j),
-    types gen_type(j), sized groups, generator-style names, free-standing `;`, quoted comments, closing `)`); the same
+    types gen_type(j), sized groups, generator-style names, `;`, quoted comments, closing `)`); the same
     for BED3 with n = 0; then the real parse_autosql is run on the text and compared with the theorem (one declaration,
     3 + n fields, field j = the type keyword, size, name and comment at gen_start(j)).
 
@@ -70,8 +70,6 @@ fn lit_other(t: &str) -> bool { !LITS.contains(&t) }
 fn punct(t: &str) -> bool { t.chars().count() == 1 && is_delim(t.chars().next().unwrap()) }
 fn quoted(t: &str) -> bool { t.starts_with('"') }
 fn word(t: &str) -> bool { !t.is_empty() && !quoted(t) && !punct(t) }
-fn glued(data: &str, l: Lx) -> bool { match data[l.e..].chars().next() { Some(c) => !c.is_whitespace() && !is_delim(c), None => false } }
-fn wordlike(data: &str, l: Lx) -> bool { let t = &data[l.s..l.e]; word(t) || (punct(t) && !glued(data, l)) }
 
 struct G { at: usize, aligned: bool, peeked: bool }
 fn ghost(t: &[Lx], s: usize, e: usize) -> G {
@@ -117,13 +115,14 @@ fn check(data: &str, toks: &[Lx], s0: usize, e0: usize, m: M, viol: &mut u64, nc
         }
         M::PeekWord => {
             if ready { ok &= stays; }
-            if more && wordlike(data, h.unwrap()) { spec = true; ok &= is_head(t) && g1.peeked; }
+            if more && word(htxt) { spec = true; ok &= is_head(t) && g1.peeked; }
+            if more && punct(htxt) { spec = true; ok &= !t.is_empty() && (is_head(t) || lit_other(t)); }
             if more && quoted(htxt) { spec = true; ok &= lit_other(t) && !t.is_empty(); }
             if done { spec = true; ok &= t.is_empty(); }
         }
         M::EatWord => {
             ok &= !g1.peeked;
-            if more && wordlike(data, h.unwrap()) { spec = true; ok &= is_head(t) && stepped; }
+            if more && word(htxt) { spec = true; ok &= is_head(t) && stepped; }
             if done { spec = true; ok &= t.is_empty() && stays; }
         }
         M::PeekOne => {
@@ -170,7 +169,7 @@ fn gen_style(t: &str) -> bool {
 fn gen_stream(data: &str, n: usize) -> Result<(), String> {
     let t = lex(data);
     let tx = |i: usize| -> &str { &data[t[i].s..t[i].e] };
-    let semi = |i: usize| -> bool { tx(i) == ";" && !glued(data, t[i]) };
+    let semi = |i: usize| -> bool { tx(i) == ";" };
     if t.len() != gen_start(3 + n) + 1 { return Err(format!("length {} != {}", t.len(), gen_start(3 + n) + 1)); }
     if !(word(tx(0)) && tx(0) == "table") { return Err("T[0]".into()); }
     if !(word(tx(1)) && gen_style(tx(1))) { return Err("T[1]".into()); }
